@@ -447,23 +447,30 @@ var upperRe = regexp.MustCompile(`UpperAnchor|UpperBound`)
 
 func boundClass(term string) string {
 	l, u := lowerRe.MatchString(term), upperRe.MatchString(term)
+	owner := "o" // lookup options
+	switch {
+	case strings.Contains(term, "BoundAlias"):
+		owner = "r" // value supplied by the row
+	case strings.Contains(term, "LowerBound") || strings.Contains(term, "UpperBound"):
+		owner = "c" // clause level
+	}
 	switch {
 	case l && u:
 		return "?"
 	case l:
-		return "L"
+		return "L" + owner
 	case u:
-		return "U"
+		return "U" + owner
 	}
 	return "v"
 }
 
 func dualClass(s string) string {
-	switch s {
-	case "L":
-		return "U"
-	case "U":
-		return "L"
+	switch {
+	case strings.HasPrefix(s, "L"):
+		return "U" + s[1:]
+	case strings.HasPrefix(s, "U"):
+		return "L" + s[1:]
 	}
 	return s
 }
